@@ -128,20 +128,23 @@ Definition check (c : case) : N :=
           | _ => negb (kek_len_ok kek) && negb (is_nil label || is_nil kek)
           end)
   | CEnvUnwrap aeskey kek o =>
-    (* raw RFC 3394 unwrap evaluated once; [envelope_unwrap_from_raw d (unwrap_raw_any kek d)] is
-       [envelope_unwrap_any d kek] (EnvelopeAnyProofs.envelope_unwrap_any_from_raw) *)
-    let r := unwrap_raw_any kek aeskey in
-    code (obeqb (envelope_unwrap_from_raw aeskey r) o)
-         (if Nat.ltb (length aeskey) 16 then true
-          else match r with
-               | None => is_err o                                  (* a KEK length crypto/aes refuses *)
-               | Some (iv, plain) =>
-                 match o with
-                 | Ok k => bytes_eqb iv default_iv && bytes_eqb k (copy16 plain)
-                 | Err => negb (bytes_eqb iv default_iv)
-                 | _ => false
-                 end
-               end)
+    (* data of any length.  The raw RFC 3394 unwrap is evaluated once and only for 24 bytes of data;
+       [envelope_unwrap_from_raw d (unwrap_raw_any kek d)] is [envelope_unwrap_any d kek]
+       (EnvelopeAnyProofs.envelope_unwrap_any_from_raw) *)
+    if negb (Nat.eqb (length aeskey) 24)
+    then code (obeqb Err o) (is_err o)                    (* not three 64-bit blocks: the error, never a key, never a panic *)
+    else
+      let r := unwrap_raw_any kek aeskey in
+      code (obeqb (envelope_unwrap_from_raw aeskey r) o)
+           (match r with
+            | None => is_err o                                  (* a KEK length crypto/aes refuses *)
+            | Some (iv, plain) =>
+              match o with
+              | Ok k => bytes_eqb iv default_iv && bytes_eqb k plain && Nat.eqb (length k) 16
+              | Err => negb (bytes_eqb iv default_iv)
+              | _ => false
+              end
+            end)
   | CTime secs off text parsed =>
     code (bytes_eqb (format_rfc3339 secs off) text && ozz_eqb (parse_rfc3339 text) parsed)
          (negb (rfc3339_range secs off) ||
